@@ -53,6 +53,7 @@ const STRIDE_MASK: u64 = (1 << STRIDE_HASH_BITS) - 1;
 ///   exceeds the threshold, it will rebuild the table: only keep the min 2^lg_nom_size entries and
 ///   update the theta to the k-th smallest entry.
 #[derive(Debug)]
+#[cfg_attr(feature = "verif-hooks", derive(Clone))]
 pub(crate) struct ThetaHashTable {
     lg_cur_size: u8,
     lg_nom_size: u8,
@@ -676,5 +677,13 @@ mod tests {
         let kth = inserted_hashes[k as usize];
         assert!(table.iter().all(|e| e < kth));
         assert_eq!(table.theta(), kth);
+    }
+}
+
+#[cfg(feature = "verif-hooks")]
+impl ThetaHashTable {
+    /// Verification hook: `(lg_cur_size, raw table)`.
+    pub fn verif_table(&self) -> (u8, Vec<u64>) {
+        (self.lg_cur_size, self.entries.clone())
     }
 }
